@@ -22,3 +22,11 @@ func ConditionNameDoesntMatchError(conditionName string, conditionNestedName str
 		conditionNestedName,
 	)
 }
+
+func ConditionParamMissingGenericTypeError(conditionParamName string, conditionParamType string) error {
+	return fmt.Errorf( //nolint:goerr113
+		"the '%s' condition parameter of type '%s' is missing its generic type",
+		conditionParamName,
+		conditionParamType,
+	)
+}
